@@ -141,6 +141,34 @@ class CollideGen:
             norm = [os.path.normpath(os.path.join(sub, s)) for s in srcs]
             targets.append({'name': os.path.join(sub, subname),
                             'kind': 'executable', 'srcs': norm, 'sub': sub})
+        extra_conflict = None
+        if rng.random() < 0.3:
+            # a custom step with several outputs ...
+            outs = ['gen/ver.h', 'gen/ver.c', 'gen/ver.txt'][:rng.randint(2,
+                                                                          3)]
+            proj.files['ver.in'] = 'v\n'
+            main.append(G.Stmt('build_step', G.call(
+                'build_step', outs, cmd=['simtool', '--in',
+                                         G.Raw('build_step.input'), '--out',
+                                         G.Raw('build_step.output')],
+                files=['ver.in']), 'gen'))
+            proj.features.add('multi_output_step')
+            if rng.random() < 0.4:
+                # ... and a later step that names one of them again
+                clash = rng.choice(outs)
+                proj.files['other.in'] = 'o\n'
+                if rng.random() < 0.5:
+                    main.append(G.Stmt('copy_file', G.call(
+                        'copy_file', clash, 'other.in'), 'again'))
+                else:
+                    main.append(G.Stmt('build_step', G.call(
+                        'build_step', clash, cmd=['simtool', '--in',
+                                                  G.Raw('build_step.input'),
+                                                  '--out',
+                                                  G.Raw('build_step.output')],
+                        files=['other.in']), 'again'))
+                extra_conflict = 'output-named-twice'
+                proj.features.add('step_output_clash')
         if rng.random() < 0.3:
             a = rng.choice(['data', 'aa', 'io'])
             b = rng.choice(['other', 'bb', 'ui'])
@@ -152,7 +180,8 @@ class CollideGen:
                 'copy_files', [os.path.join(a, fn), os.path.join(b, fn)],
                 **kwc), 'copies'))
             proj.features.add('copy_files')
-        proj.model = {'targets': targets, 'intermediate_dirs': inter}
+        proj.model = {'targets': targets, 'intermediate_dirs': inter,
+                      'extra_conflict': extra_conflict}
         proj.features.add('intermediate_dirs' if inter
                           else 'no_intermediate_dirs')
         return proj
@@ -163,6 +192,8 @@ def true_conflict(model, backend='make'):
     of one target differing only in their extension; without intermediate
     dirs, one source (stem) compiled for two targets."""
     ts = model['targets']
+    if model.get('extra_conflict'):
+        return model['extra_conflict']
     seen = set()
     for t in ts:
         key = (t['name'], 'lib' if t['kind'] != 'executable' else 'exe',
